@@ -73,15 +73,35 @@ def gate_values(circ, include_macros=True):
                 yield ("loop count", s.iterations)
             elif isinstance(s, BlockStatement) and s.subcircuit:
                 yield ("subcircuit count", s.iterations)
-    for r in circ.registers.values():
+    seen = set()
+
+    def reg_values(r, where):
+        if id(r) in seen or isinstance(r, Parameter) or r is None:
+            return
+        seen.add(id(r))
         if isinstance(r, NamedQubit):
-            yield ("alias index", r.alias_index)
-        elif r.alias_from is None:
-            yield ("register size", r._size)
-        elif r.alias_slice is not None:
-            yield ("alias start", r.alias_slice.start)
-            yield ("alias stop", r.alias_slice.stop)
-            yield ("alias step", r.alias_slice.step)
+            yield (where + " alias index", r.alias_index)
+            yield from reg_values(r.alias_from, where)
+        elif isinstance(r, Register):
+            if r.alias_from is None:
+                yield (where + " register size", r._size)
+            else:
+                if r.alias_slice is not None:
+                    yield (where + " alias start", r.alias_slice.start)
+                    yield (where + " alias stop", r.alias_slice.stop)
+                    yield (where + " alias step", r.alias_slice.step)
+                yield from reg_values(r.alias_from, where)
+
+    for r in circ.registers.values():
+        yield from reg_values(r, "declared")
+    # registers reachable from gate arguments (they may be other objects than the declared ones)
+    roots = [circ.body] + ([m.body for m in circ.macros.values()] if include_macros else [])
+    for root in roots:
+        for s_ in statements(root):
+            if isinstance(s_, GateStatement):
+                for v in s_.parameters.values():
+                    if isinstance(v, (NamedQubit, Register)):
+                        yield from reg_values(v, "referenced")
 
 
 def header_equal(a, b, macros=True):
